@@ -212,6 +212,12 @@ def run(tier):
                     f.close()
                     for code, detail in specfat.fsck(bytes(dev.data), 0, cp=cp):
                         if not code.startswith(("fat.", "chain.")):
+                            # a short name whose first OEM byte is 0xE5 is stored with 0xE5 (finding D2: the 0x05 escape
+                            # is undone in place), so an independent reader sees a free slot and the long-name slots
+                            # before it are orphans
+                            if code == "lfn.orphan" and "free slot" in detail and \
+                                    any("lead-byte-0xE5" in classify(n_, cp) for n_ in created):
+                                code = code + ":lead-byte-0xE5"
                             res.fail(["C05", "C15"], "names:fsck:%s:%s" % (code, cp), detail,
                                      {"suite": "names", "cp": cp, "preserve_case": pc, "created": created[:50]})
                             break
